@@ -468,7 +468,7 @@ static void run_seq(void)
 			unsigned long want = rs_sizes[c - S_NKINDS * nkeys], exp;
 
 			snprintf(what, sizeof(what), "step %d resize(%#lx)", step, want);
-			if (want > 64 && max_eff > 64)
+			if (want > 64 && max_eff > 4096)
 				want = 64;	/* unlimited table: do not really allocate 2^63 buckets */
 			cds_lfht_resize(ht, want);	/* must return: hang = livelock / horizon verdict */
 			exp = want < 1 ? 1 : want;
